@@ -15,6 +15,7 @@
 #include <sys/wait.h>
 #include <time.h>
 #include <unistd.h>
+#include <dirent.h>
 
 struct sk_kernel *K;
 size_t sk_arena_size;
@@ -867,6 +868,63 @@ int __wrap_fileno(FILE *f)
   char *c = (char *) f;
   if (c >= fake_files && c < fake_files + SK_MAXFD) return (int) (c - fake_files);
   return __real_fileno(f);
+}
+
+/* ---- directory listing of the process's own descriptors (/proc/self/fd, /dev/fd): a common way to find what to close ---- */
+struct sk_dir { int magic; int fd; int n, pos; int ents[SK_MAXFD]; struct dirent de; };
+static struct sk_dir sk_dirs[4];
+extern DIR *__real_opendir(const char *);
+extern struct dirent *__real_readdir(DIR *);
+extern int __real_closedir(DIR *);
+extern int __real_dirfd(DIR *);
+static struct sk_dir *as_skdir(DIR *d)
+{
+  struct sk_dir *x = (struct sk_dir *) d;
+  return (x >= sk_dirs && x < sk_dirs + 4 && x->magic == 0x5d1f) ? x : NULL;
+}
+DIR *__wrap_opendir(const char *path)
+{
+  if (!K || (strcmp(path, "/proc/self/fd") && strcmp(path, "/dev/fd") && strcmp(path, "/proc/self/fd/") && strcmp(path, "/dev/fd/")))
+    return __real_opendir(path);
+  int e = fault(FK_OPEN);
+  if (e) { errno = e; return NULL; }
+  struct sk_proc *p = ME;
+  int fd = lowest_free(p, 0);
+  if (fd < 0) { errno = EMFILE; return NULL; }
+  struct sk_dir *d = NULL;
+  for (int i = 0; i < 4; i++) if (sk_dirs[i].magic != 0x5d1f) { d = &sk_dirs[i]; break; }
+  if (!d) { errno = ENOMEM; return NULL; }
+  int obj = sk_new_obj(OK_FILE, 0);
+  K->obj[obj].pathid = sk_str(path);
+  sk_install(sk_cur, fd, obj, 0, 1, K->in_api);
+  d->magic = 0x5d1f; d->fd = fd; d->n = 0; d->pos = 0;
+  for (int i = 0; i < SK_MAXFD; i++) if (p->fd[i].ofd >= 0) d->ents[d->n++] = i;   /* includes the directory's own descriptor, as on Linux */
+  sk_logev(LK_OPEN, fd, obj, 0, fd);
+  return (DIR *) d;
+}
+struct dirent *__wrap_readdir(DIR *dp)
+{
+  struct sk_dir *d = as_skdir(dp);
+  if (!d) return __real_readdir(dp);
+  if (d->pos >= d->n) return NULL;
+  memset(&d->de, 0, sizeof d->de);
+  snprintf(d->de.d_name, sizeof d->de.d_name, "%d", d->ents[d->pos++]);
+  d->de.d_type = DT_LNK;
+  return &d->de;
+}
+int __wrap_closedir(DIR *dp)
+{
+  struct sk_dir *d = as_skdir(dp);
+  if (!d) return __real_closedir(dp);
+  struct sk_proc *p = ME;
+  if (p->fd[d->fd].ofd >= 0) fd_close(p, d->fd);
+  d->magic = 0;
+  return 0;
+}
+int __wrap_dirfd(DIR *dp)
+{
+  struct sk_dir *d = as_skdir(dp);
+  return d ? d->fd : __real_dirfd(dp);
 }
 
 /* ---- allocation ledger ---- */
